@@ -78,6 +78,8 @@ TRY_SITES = [
 # function, in source order, as (class, code); a raise of anything else is (EException, [])
 RAISE_SITES = [
     ('xml_from_element', 'spyne.protocol.xml', 'XmlDocument.from_element'),
+    ('xml_get_xsi_target', 'spyne.protocol.xml', 'XmlDocument._get_xsi_target'),
+    ('xml_array_from_element', 'spyne.protocol.xml', 'XmlDocument.array_from_element'),
     ('xml_complex_from_element', 'spyne.protocol.xml', 'XmlDocument.complex_from_element'),
     ('xml_base_from_element', 'spyne.protocol.xml', 'XmlDocument.base_from_element'),
     ('xml_unicode_from_element', 'spyne.protocol.xml', 'XmlDocument.unicode_from_element'),
@@ -89,6 +91,11 @@ RAISE_SITES = [
     ('hier_from_dict_value', 'spyne.protocol.dictdoc.hier', 'HierDictDocument._from_dict_value'),
     ('hier_validate', 'spyne.protocol.dictdoc.hier', 'HierDictDocument.validate'),
     ('dict_check_freq', 'spyne.protocol.dictdoc._base', 'DictDocument._check_freq_dict'),
+    ('json_ret_number', 'spyne.protocol.json', 'JsonDocument._ret_number'),
+    ('yaml_ret_number', 'spyne.protocol.yaml', 'YamlDocument._ret_number'),
+    ('msgpack_ret_number', 'spyne.protocol.msgpack', 'MessagePackDocument._ret_number'),
+    ('msgpack_integer_from_bytes', 'spyne.protocol.msgpack', 'MessagePackDocument.integer_from_bytes'),
+    ('json_validate', 'spyne.protocol.json', 'JsonDocument.validate'),
     ('json_ret_bool', 'spyne.protocol.json', 'JsonDocument._ret_bool'),
     ('yaml_ret_bool', 'spyne.protocol.yaml', 'YamlDocument._ret_bool'),
     ('msgpack_ret_bool', 'spyne.protocol.msgpack', 'MessagePackDocument._ret_bool'),
@@ -138,13 +145,23 @@ GUARDS = [
     ('g_hier_validate_unicode', 'spyne.protocol.dictdoc.hier', 'HierDictDocument.validate',
      "issubclass(cls, Unicode) and (not isinstance(inst, self.VALID_UNICODE_SOURCES))", 'raise'),
     ('g_json_ret_number', 'spyne.protocol.json', 'JsonDocument._ret_number',
-     "not isinstance(value, NUMBER_TYPES)", 'raise'),
+     "isinstance(value, NON_NUMBER_TYPES)", 'raise'),
     ('g_yaml_ret_number', 'spyne.protocol.yaml', 'YamlDocument._ret_number',
-     "not isinstance(value, NUMBER_TYPES)", 'raise'),
+     "isinstance(value, NON_NUMBER_TYPES)", 'raise'),
     ('g_msgpack_ret_number', 'spyne.protocol.msgpack', 'MessagePackDocument._ret_number',
-     "not isinstance(value, NUMBER_TYPES)", 'raise'),
+     "isinstance(value, NON_NUMBER_TYPES)", 'raise'),
+    ('g_msgpack_integer_non_number', 'spyne.protocol.msgpack', 'MessagePackDocument.integer_from_bytes',
+     "isinstance(value, NON_NUMBER_TYPES)", 'raise'),
+    ('g_hier_number_sources', 'spyne.protocol.dictdoc.hier', 'HierDictDocument._from_dict_value',
+     "inst is not None and issubclass(cls, Decimal) and (not isinstance(inst, self.VALID_NUMBER_SOURCES))", 'raise'),
+    ('g_hier_validate_stringified', 'spyne.protocol.dictdoc.hier', 'HierDictDocument.validate',
+     "inst is not None and issubclass(cls, self.stringified_types) and "
+     "(getattr(self.get_cls_attrs(cls), 'serialize_as', None) is None) and "
+     "(not isinstance(inst, (six.text_type, six.binary_type)))", 'raise'),
+    ('g_hier_null_member', 'spyne.protocol.dictdoc.hier', 'HierDictDocument._from_dict_value',
+     "inst is None", 'assign'),
     ('g_json_validate_dt', 'spyne.protocol.json', 'JsonDocument.validate',
-     "issubclass(cls, (DateTime, Date, Time)) and (not (isinstance(val, six.string_types) and "
+     "val is not None and issubclass(cls, (DateTime, Date, Time)) and (not (isinstance(val, six.string_types) and "
      "cls.validate_string(cls, val)))", 'raise'),
     ('g_inbase_enum_member', 'spyne.protocol._inbase', 'InProtocolBase.enum_base_from_bytes',
      "not value in cls.__values__", 'raise'),
@@ -297,6 +314,8 @@ class Translator(object):
                 if kind == 'continue' and isinstance(body[-1], ast.Continue):
                     return 'mkguard true EException []'
                 if kind == 'return' and isinstance(body[-1], ast.Return):
+                    return 'mkguard true EException []'
+                if kind == 'assign' and isinstance(body[-1], ast.Assign):
                     return 'mkguard true EException []'
         return 'mkguard false EException []'
 
